@@ -9,13 +9,13 @@ lists (skipped identically by every side)."""
 
 
 def gen_case(rng, maxops):
-    n = rng.choice([4, 10, 25, 60, maxops])
+    n = rng.choice([4, 10, 25, 60, min(maxops, 400)])
     ops = []
     lists = []          # per list index: list of node indexes, or None once destroyed
     where = {}          # live node index -> list index
     nnodes = 0
     nextv = [1]
-    mode = rng.choice(["mixed", "mixed", "moves", "middle", "drain", "small"])
+    mode = rng.choice(["mixed", "mixed", "moves", "middle", "drain", "small", "grow"])
 
     def val():
         r = rng.random()
@@ -96,7 +96,6 @@ def gen_case(rng, maxops):
         newlist()
 
     for _ in range(n):
-        nonlocal_nn = nnodes
         c = rng.random()
         total = len(where)
         if mode == "small" and total > 3:
@@ -107,6 +106,8 @@ def gen_case(rng, maxops):
             c = 0.68 + 0.14 * rng.random()
         if mode == "middle" and total > 0 and rng.random() < 0.5:
             c = 0.2 + 0.2 * rng.random()
+        if mode == "grow" and rng.random() < 0.6:
+            c = 0.4 * rng.random()
         if c < 0.10:
             l = pick_list(rng.choice([None, "empty"]))
             v = val()
